@@ -108,7 +108,7 @@ class TWorld:
 
     def __init__(self, config=None, coroutine_handlers=False, app_kwargs=None, ws_read_timeout=False,
                  legacy_disconnect=False, clock=None, sched=None, handler_delay=None,
-                 preempt=False, timer_jitter=0.0):
+                 preempt=False, timer_jitter=0.0, handler_style=None):
         import engineio
         self.clock = clock or vclock.reset()
         vclock.patch_engineio_time()
@@ -129,7 +129,8 @@ class TWorld:
         self.server = VServer(async_mode='verif', **cfg)
         self.app_log = AppLog(self)
         self.app_log.delay = dict(handler_delay or {})
-        self.app_log.install(self.server, False, legacy_disconnect, sleep=vsched.vsleep)
+        self.app_log.install(self.server, False, legacy_disconnect, sleep=vsched.vsleep,
+                             style=handler_style)
         self.app = engineio.WSGIApp(self.server, **(app_kwargs or {}))
         self.ws_read_timeout = ws_read_timeout
         self.reqs, self.conns, self.calls = [], [], []
